@@ -323,7 +323,10 @@ enum Handle {
     Disc(ServiceDiscovery, Option<std::sync::mpsc::Receiver<InstanceInformation>>),
     Resp(SimpleMdnsResponder),
     Res(OneShotMdnsResolver),
-    ADisc(adisc::ServiceDiscovery, Option<simrt::shim_tokio::sync::mpsc::Receiver<InstanceInformation>>),
+    /// the receiver of the tokio on_discovery channel is owned by a drainer thread (a full
+    /// bounded channel would make the listener wait while holding the store's write lock);
+    /// the flag tells the drainer to drop it
+    ADisc(adisc::ServiceDiscovery, Option<Arc<std::sync::atomic::AtomicBool>>),
     AResp(adisc::SimpleMdnsResponder),
     ARes(adisc::OneShotMdnsResolver),
     Raw(net::UdpSocket),
@@ -334,11 +337,6 @@ fn drain_channel(obs: &ObsLog, node: u32, inc: u32, h: &mut Handle) {
     let mut got = Vec::new();
     match h {
         Handle::Disc(_, Some(rx)) => {
-            while let Ok(inst) = rx.try_recv() {
-                got.push(inst);
-            }
-        }
-        Handle::ADisc(_, Some(rx)) => {
             while let Ok(inst) = rx.try_recv() {
                 got.push(inst);
             }
@@ -385,7 +383,31 @@ fn app_main(node: u32, inc: u32, spec: NodeSpec, from_ms: u64, sc: Arc<Scenario>
             }) {
                 Some(Ok(d)) => {
                     push(&obs, ObsItem::Constructed { node, inc, ok: true, err: String::new() });
-                    Handle::ADisc(d, if *channel { Some(rx) } else { None })
+                    if *channel {
+                        let closed = Arc::new(std::sync::atomic::AtomicBool::new(false));
+                        let (c2, obs2) = (closed.clone(), obs.clone());
+                        let mut rx = rx;
+                        simrt::thread::spawn_named_on(Some(node), Some(format!("drain:{}", node)), move || {
+                            block_on(async {
+                                loop {
+                                    match simrt::shim_tokio::time::timeout(Duration::from_secs(5), rx.recv()).await {
+                                        Ok(Some(inst)) => {
+                                            let c16 = c16_instance(&inst);
+                                            push(&obs2, ObsItem::Discovered { node, inc, seq: ctl::seq(), inst: InstObs::from_real(&inst), c16 });
+                                        }
+                                        Ok(None) => break,
+                                        Err(_) => {}
+                                    }
+                                    if c2.load(std::sync::atomic::Ordering::Relaxed) {
+                                        break;
+                                    }
+                                }
+                            })
+                        });
+                        Handle::ADisc(d, Some(closed))
+                    } else {
+                        Handle::ADisc(d, None)
+                    }
                 }
                 Some(Err(e)) => {
                     push(&obs, ObsItem::Constructed { node, inc, ok: false, err: format!("{}", e) });
@@ -483,8 +505,10 @@ fn app_main(node: u32, inc: u32, spec: NodeSpec, from_ms: u64, sc: Arc<Scenario>
             (Handle::Disc(_, rx), AppOp::DropChannel) => {
                 *rx = None;
             }
-            (Handle::ADisc(_, rx), AppOp::DropChannel) => {
-                *rx = None;
+            (Handle::ADisc(_, closed), AppOp::DropChannel) => {
+                if let Some(c) = closed {
+                    c.store(true, std::sync::atomic::Ordering::Relaxed);
+                }
             }
             (Handle::Disc(d, _), AppOp::Announce(flush)) => {
                 let f = *flush;
@@ -721,6 +745,7 @@ pub fn run(sc: &Scenario) -> RunOutput {
         max_steps: sc.max_steps,
         step_jitter_ns: sc.knobs.step_jitter_ns,
         spin_limit_ms: 10_000,
+        sched_policy: sc.knobs.sched_policy,
         net: net_config(sc),
         scripted_payload: vec![],
     };
